@@ -138,6 +138,19 @@ def run(ctx):
         ok = bool(rets) and all(N.mk_cmp("<=", ln, N.const(1)) in p.guards() or N.mk_cmp("==", ln, N.const(1)) in p.guards() for p in rets) and \
             any(p.outcome[0] == "raise" and p.outcome[1].get("cls") == "NotImplementedError" and N.mk_cmp(">", ln, N.const(1)) in p.guards() for p in paths)
         ctx.ob("C19.R2", fi, ok, "%s exports its first byte as the %s only when the %s is a single byte, and refuses longer ones" % (cls, attr, attr), key="%s single byte" % cls)
+    # Kaitai's strz stops at a single zero *byte*: a construct whose terminator / pad is a whole code unit of the encoding (2 or 4 zero bytes
+    # for UTF-16/32) may be described as strz only when that unit is one byte -- the discipline NullTerminated follows above
+    nz = 0
+    for f, fcls in funs:
+        for p, d in retdict(paths_of(ctx, f, fcls)):
+            if d.get("type") != N.const("strz"):
+                continue
+            nz += 1
+            single = any(c[0] == "cmp" and c[1] in ("<=", "==", "<") and c[2][0] == "call" and c[2][1] == ("free", "len") and N.is_const(c[3]) and c[3][2] in (1, 2) for c in p.guards())
+            ctx.ob("C19.R2", f, single, "%s describes the string as strz (terminated by one zero byte) without restricting the encoding to single-byte code units; with UTF-16/32 the construct ends the string at a 2/4-byte zero unit" % f.qual,
+                   key="strz single-byte unit", node=f.node)
+    if nz < 2:
+        ctx.error("C19.R2: %d strz exports found, floor 2 (CString, PaddedString)" % nz)
     fi, paths = own_method_paths(ctx, "Const", "_emitfulltype")
     ds = retdict(paths)
     ok = bool(ds) and all(d.get("contents") == ("call", ("free", "list"), (("subres", "build", subcon, 0),), ()) for p, d in ds) and \
@@ -212,7 +225,37 @@ def run(ctx):
         bwp = [("param", "bitwise"), ("free", "bitwise")]
         ok = all(any(g in bwp for g in p.guards()) for p in bits)
         ctx.ob("C19.R2", f, ok, "%s exports a bit-sized type b<n> only when it sits in a bitwise context (in byte context the same number would be read as bits, not bytes)" % f.qual, key="%s bit type guard" % f.qual)
-    ctx.floor("C19.R2", 23 + 3)
+    # FlagsEnum: one b1 entry per bit of the underlying field, named after the flag with mask 1<<i, listed from the most significant bit down
+    # (Kaitai reads consecutive b1 fields most-significant-bit first; listing bit 0 first names the top bit after the flag with mask 1)
+    fi, paths = own_method_paths(ctx, "FlagsEnum", "_emitseq")
+    size = None
+    ok, seen = True, 0
+    for p in paths:
+        for lp in p.of("LOOP"):
+            it = lp["iter"]
+            rng = it[2][0] if it[0] == "call" and it[1] == ("free", "reversed") and len(it[2]) == 1 else None
+            desc = rng is not None and rng[0] == "call" and rng[1] == ("free", "range") and len(rng[2]) == 1
+            if not desc and it[0] == "call" and it[1] == ("free", "range") and len(it[2]) == 3:
+                a, b, c = it[2]
+                desc = b == N.const(-1) and c == N.const(-1) and N.mk_add(a, N.const(1)) is not None
+                rng = ("call", ("free", "range"), (N.mk_add(a, N.const(1)),), ()) if desc else None
+            ok = ok and desc
+            if desc:
+                n = rng[2][0]
+                ok = ok and n[0] == "lin" and len(n[1]) == 1 and n[1][0][1] == 8 and n[2] == 0 and n[1][0][0][:3] == ("subres", "sizeof", N.selfattr("subcon"))
+        for e in p.of("MUT"):
+            if e["method"] != "append" or not e["args"] or e["args"][0][0] != "call" or e["args"][0][1] != ("free", "dict"):
+                continue
+            seen += 1
+            d = dict(e["args"][0][3])
+            ident = d.get("id")
+            good = d.get("type") == N.const("b1") and ident is not None and ident[0] == "call" and ident[1] == ("attr", N.selfattr("reverseflags"), "get") and len(ident[2]) == 2
+            if good:
+                mask = ident[2][0]
+                good = mask[0] == "bin" and mask[1] == "<<" and mask[2] == N.const(1) and mask[3][0] in ("idx", "elem") and e.loops
+            ok = ok and good
+    ctx.ob("C19.R2", fi, ok and seen >= 1, "FlagsEnum._emitseq lists one b1 per bit of the field, each named after the flag with mask 1<<i, from the most significant bit down", key="FlagsEnum bit order")
+    ctx.floor("C19.R2", 23 + 6)
 
     # ---------------------------------------------------------------- R5: shared tables are keyed by fresh names
     fi, paths = own_method_paths(ctx, "KsyGen", "allocateId")
